@@ -889,4 +889,391 @@ theorem coh_attach {s s' : DState} {p c : Id} {l : List Id}
       simp only [hm, if_false, hcx, and_false, or_false]
       exact hC.owned_iff x hxe
 
+/-! ### removeChild -/
+
+theorem run_bind_liftH {α β} (m : M α) (k : α → DM β) (s : DState) :
+    (liftH m >>= k).run s = match m.run s.heap with
+      | (h', .ok a) => (k a).run { s with heap := h' }
+      | (h', .error e) => ({ s with heap := h' }, .error e) := by
+  rw [DomDoc.run_bind, run_liftH]
+  rcases m.run s.heap with ⟨h', (e | a)⟩ <;> rfl
+
+/-- the heap after the five link assignments of removeChild -/
+def rm5 (h : Heap) (p c : Id) : Heap :=
+  setPrev (setNext
+    (setNextOpt (setPrevOpt (setKids h p ((h p).kids.erase c)) (h c).next (h c).prev) (h c).prev (h c).next)
+    c none) c none
+
+theorem unlink_run (p c : Id) (h : Heap) : (unlink p c).run h = (rm5 h p c, .ok ()) := by
+  unfold unlink rm5; simp
+
+theorem rmHeap_eq (h : Heap) (p c : Id) : rmHeap h p c = setParent (rm5 h p c) c none := rfl
+
+theorem elems_congr {h h' : Heap} (hk : ∀ y, (h' y).kids = (h y).kids ∧ (h' y).kind = (h y).kind) :
+    ∀ f, (∀ n, elems h' f n = elems h f n) ∧ (∀ ks, elemsL h' f ks = elemsL h f ks) := by
+  intro f
+  induction f with
+  | zero =>
+    have h1 : ∀ n, elems h' 0 n = elems h 0 n := by intro n; simp [elems_zero, (hk n).2]
+    refine ⟨h1, ?_⟩
+    intro ks
+    induction ks with
+    | nil => simp [elemsL_nil]
+    | cons k r ih => rw [elemsL_cons, elemsL_cons, h1 k, ih]
+  | succ f ih =>
+    have h1 : ∀ n, elems h' (f + 1) n = elems h (f + 1) n := by
+      intro n; rw [elems_succ, elems_succ, (hk n).2, (hk n).1, ih.2]
+    refine ⟨h1, ?_⟩
+    intro ks
+    induction ks with
+    | nil => simp [elemsL_nil]
+    | cons k r ih2 => rw [elemsL_cons, elemsL_cons, h1 k, ih2]
+
+theorem owned_congr {s s' : DState} (h : s'.ownedL = s.ownedL) (y : Id) : s'.owned y = s.owned y := by
+  unfold DState.owned; rw [h]
+
+/-- what `dropFromIndexes p c` does (when the traversal stays within the budget) -/
+theorem dropFromIndexes_view {p c : Id} {s s' : DState} {r : Except Err Unit}
+    (hrun : (dropFromIndexes p c).run s = (s', r)) (hnd : ∀ q, (ed s q).Nodup) :
+    r = .error .RecursionError ∨
+    (r = .ok () ∧ ∃ l, elemsUnder s.heap c = some l ∧ s'.heap = s.heap ∧ s'.top = s.top ∧
+      (∀ q, (ed s' q).Nodup) ∧
+      (∀ q y, y ∈ ed s' q ↔ y ∈ ed s q ∧
+        ¬ ((s.owned p = true ∧ (s.heap c).kind = .elem) ∧ y ∈ l ∧ (s.heap y).qn = q)) ∧
+      (∀ y, s'.owned y = if y ∈ l then false else s.owned y)) := by
+  unfold dropFromIndexes at hrun
+  simp only [DomDoc.run_bind_rd] at hrun
+  cases hl : elemsUnder s.heap c with
+  | none =>
+    left
+    by_cases hD : (s.owned p && decide ((s.heap c).kind = .elem)) = true
+    · simp only [hD, if_true] at hrun
+      rw [DomDoc.run_bind, removeFromCaches_run, hl] at hrun
+      cases hrun; rfl
+    · simp only [hD, if_false, DomDoc.run_bind_pure, Bool.false_eq_true] at hrun
+      rw [setOwnerRec_run, hl] at hrun
+      cases hrun; rfl
+  | some l =>
+    right
+    by_cases hD : (s.owned p && decide ((s.heap c).kind = .elem)) = true
+    · simp only [hD, if_true] at hrun
+      rw [DomDoc.run_bind, removeFromCaches_run, hl] at hrun
+      simp only at hrun
+      obtain ⟨a1, a2, a3⟩ := foldRemove_same l s
+      obtain ⟨b1, b2⟩ := foldRemove_ed l s hnd
+      rw [setOwnerRec_run, a1, hl] at hrun
+      simp only at hrun
+      obtain ⟨c1, c2, c3, _, c5⟩ := foldOwned_view false l (l.foldl (fun s x => removeOnePure x s) s)
+      cases hrun
+      have hD' : s.owned p = true ∧ (s.heap c).kind = .elem := by simpa using hD
+      refine ⟨rfl, l, rfl, c1.trans a1, c3.trans a3, ?_, ?_, ?_⟩
+      · intro q; unfold ed; rw [c2]; exact b1 q
+      · intro q y; unfold ed; rw [c2]
+        have := b2 q y
+        unfold ed at this
+        rw [this]; simp [hD']
+      · intro y; rw [c5 y, owned_congr a2]
+    · simp only [hD, if_false, DomDoc.run_bind_pure, Bool.false_eq_true] at hrun
+      rw [setOwnerRec_run, hl] at hrun
+      simp only at hrun
+      obtain ⟨c1, c2, c3, _, c5⟩ := foldOwned_view false l s
+      cases hrun
+      have hD' : ¬ (s.owned p = true ∧ (s.heap c).kind = .elem) := by simpa using hD
+      refine ⟨rfl, l, rfl, c1, c3, ?_, ?_, c5⟩
+      · intro q; unfold ed; rw [c2]; exact hnd q
+      · intro q y; unfold ed; rw [c2]; simp [hD']
+
+/-- the tree is consistent and cycle-free, and index and ownerDocument agree with it -/
+def Good (s : DState) : Prop := Inv s.heap ∧ Acyclic s.heap ∧ CohIdx s
+
+theorem run_liftH_upd (f : Heap → Heap) (s : DState) :
+    (liftH (upd f)).run s = ({ s with heap := f s.heap }, .ok ()) := rfl
+
+theorem rm5_fields (h : Heap) (p c y : Id) :
+    (rm5 h p c y).kids = (rmHeap h p c y).kids ∧ (rm5 h p c y).kind = (h y).kind ∧ (rm5 h p c y).qn = (h y).qn := by
+  rw [rmHeap_eq]; simp [rm5]
+
+/-- what a `removeChild` that gets past its guards does -/
+theorem removeChild_view {p c : Id} {s s' : DState} {r : Except Err Unit}
+    (hrun : (DomDoc.removeChild p c).run s = (s', r)) (hnd : ∀ q, (ed s q).Nodup) :
+    (s' = s ∧ r = .error .NotFound) ∨ r = .error .RecursionError ∨
+    (r = .ok () ∧ ((s.heap p).kind = .elem ∧ c ∈ (s.heap p).kids) ∧
+      ∃ l, elemsUnder (rmHeap s.heap p c) c = some l ∧ s'.heap = rmHeap s.heap p c ∧ s'.top = s.top ∧
+      (∀ q, (ed s' q).Nodup) ∧
+      (∀ q y, y ∈ ed s' q ↔ y ∈ ed s q ∧
+        ¬ ((s.owned p = true ∧ (s.heap c).kind = .elem) ∧ y ∈ l ∧ (s.heap y).qn = q)) ∧
+      (∀ y, s'.owned y = if y ∈ l then false else s.owned y)) := by
+  unfold DomDoc.removeChild at hrun
+  simp only [DomDoc.run_bind_rd] at hrun
+  by_cases hk : (s.heap p).kind = .elem
+  · by_cases hc : c ∈ (s.heap p).kids
+    · simp [hk, hc] at hrun
+      rw [run_bind_liftH, unlink_run] at hrun
+      simp only at hrun
+      rw [DomDoc.run_bind] at hrun
+      rcases hd : (dropFromIndexes p c).run { s with heap := rm5 s.heap p c } with ⟨s2, r2⟩
+      rw [hd] at hrun
+      have hnd1 : ∀ q, (ed { s with heap := rm5 s.heap p c } q).Nodup := hnd
+      rcases dropFromIndexes_view hd hnd1 with hrec | ⟨hok, l, hl, hh, ht, v1, v2, v3⟩
+      · subst hrec; simp only at hrun; cases hrun; exact Or.inr (Or.inl rfl)
+      · subst hok
+        simp only [run_liftH_upd] at hrun
+        cases hrun
+        refine Or.inr (Or.inr ⟨rfl, ⟨hk, hc⟩, l, ?_, ?_, ht, v1, ?_, v3⟩)
+        · have hcg := (elems_congr (h := rm5 s.heap p c) (h' := rmHeap s.heap p c) (fun y => by
+            rw [rmHeap_eq]; simp)) FUEL
+          unfold elemsUnder at hl ⊢
+          rw [hcg.1]; exact hl
+        · show setParent s2.heap c none = rmHeap s.heap p c
+          rw [hh, rmHeap_eq]
+        · intro q y
+          have := v2 q y
+          simp only [(rm5_fields s.heap p c c).2.1, (rm5_fields s.heap p c y).2.2] at this
+          exact this
+    · simp [hk, hc] at hrun
+      exact Or.inl ⟨hrun.1.symm, hrun.2.symm⟩
+  · simp [hk] at hrun
+    exact Or.inl ⟨hrun.1.symm, hrun.2.symm⟩
+
+theorem rmHeap_acyclic {h : Heap} (hA : Acyclic h) (p c : Id) : Acyclic (rmHeap h p c) := by
+  apply acyclic_of_parent_sub hA
+  intro x q hx; rw [rmHeap_parent] at hx
+  split at hx
+  · cases hx
+  · exact hx
+
+/-- **C09 (removeChild)**: cutting off a node (element or text, with its whole subtree, from an
+    attached or a detached parent) keeps index and ownerDocument in step with the tree; a refused
+    call changes nothing. -/
+theorem removeChild_good {p c : Id} {s s' : DState} {r : Except Err Unit} (hG : Good s)
+    (hrun : (DomDoc.removeChild p c).run s = (s', r)) (hr : r ≠ .error .RecursionError) : Good s' := by
+  obtain ⟨hI, hA, hC⟩ := hG
+  rcases removeChild_view hrun hC.nodup with ⟨e, _⟩ | hrec | ⟨_, ⟨hk, hc⟩, l, hl, hh, ht, v1, v2, v3⟩
+  · rw [e]; exact ⟨hI, hA, hC⟩
+  · exact absurd hrec hr
+  · have hI' : Inv s'.heap := by rw [hh]; exact rm_inv hI hc
+    have hA' : Acyclic s'.heap := by rw [hh]; exact rmHeap_acyclic hA p c
+    refine ⟨hI', hA', ?_⟩
+    apply coh_remove hI hC hc hI' ht
+    · intro y; rw [hh, rmHeap_parent]
+    · intro y; rw [hh]; simp
+    · intro y; rw [hh]; simp
+    · intro x
+      unfold elemsUnder at hl
+      rw [← hh] at hl
+      exact elems_spec hI' hl x
+    · exact v1
+    · exact v2
+    · exact v3
+
+/-! ### _child_attached -/
+
+theorem inv_sameLinks {h h' : Heap} (hI : Inv h) (hs : SameLinks h h') : Inv h' := by
+  apply inv_of_same_links hI
+  · intro q; exact (hs q).1
+  · intro q; exact (hs q).2.1
+  · intro q; exact (hs q).2.2.1
+  · intro q; exact (hs q).2.2.2.1
+  · intro q hq; rw [(hs q).2.2.2.2.1] at hq; exact hI.childless q hq
+
+theorem acyclic_sameLinks {h h' : Heap} (hA : Acyclic h) (hs : SameLinks h h') : Acyclic h' :=
+  acyclic_of_same_parents hA (fun x => (hs x).2.1)
+
+theorem elemsUnder_sameLinks {h h' : Heap} (hs : SameLinks h h') (n : Id) : elemsUnder h' n = elemsUnder h n := by
+  unfold elemsUnder
+  exact ((elems_congr (fun y => ⟨(hs y).1, (hs y).2.2.2.2.1⟩)) FUEL).1 n
+
+/-- what `p._child_attached(c)` does (when the traversal stays within the budget) -/
+theorem childAttached_view {p c : Id} {s s' : DState} {r : Except Err Unit}
+    (hrun : (childAttached p c).run s = (s', r)) :
+    r = .error .RecursionError ∨
+    (r = .ok () ∧ ∃ l, elemsUnder s.heap c = some l ∧ SameLinks s.heap s'.heap ∧ s'.top = s.top ∧
+      (∀ q, ed s' q = if s.owned p = true ∧ (s.heap c).kind = .elem
+        then ed s q ++ l.filter (fun y => (s.heap y).qn = q) else ed s q) ∧
+      (∀ y, s'.owned y = if y ∈ l then s.owned p else s.owned y)) := by
+  unfold childAttached at hrun
+  simp only [DomDoc.run_bind_rd] at hrun
+  rw [DomDoc.run_bind, setOwnerRec_run] at hrun
+  cases hl : elemsUnder s.heap c with
+  | none => rw [hl] at hrun; cases hrun; exact Or.inl rfl
+  | some l =>
+    right
+    rw [hl] at hrun
+    simp only [DomDoc.run_bind_rd] at hrun
+    obtain ⟨c1, c2, c3, _, c5⟩ := foldOwned_view (s.owned p) l s
+    rw [DomDoc.run_ite] at hrun
+    generalize List.foldl (fun s_1 x => setOwned s_1 x (s.owned p)) s l = s2 at hrun c1 c2 c3 c5
+    split at hrun
+    · rename_i hD
+      rw [rebuildCaches_run, c1, hl] at hrun
+      simp only at hrun
+      obtain ⟨b1, b2, b3, b4⟩ := foldBuild_view l s2
+      cases hrun
+      have hD' : s.owned p = true ∧ (s.heap c).kind = .elem := by rw [c1] at hD; simpa using hD
+      refine ⟨rfl, l, rfl, ?_, b3.trans c3, ?_, ?_⟩
+      · rw [c1] at b1; exact b1
+      · intro q; rw [b4 q]; unfold ed; rw [c2, c1]; simp [hD']
+      · intro y; rw [owned_congr b2, c5 y]
+    · rename_i hD
+      rw [DomDoc.run_pure] at hrun
+      cases hrun
+      have hD' : ¬ (s.owned p = true ∧ (s.heap c).kind = .elem) := by rw [c1] at hD; simpa using hD
+      refine ⟨rfl, l, rfl, ?_, c3, ?_, c5⟩
+      · rw [c1]; exact SameLinks.refl _
+      · intro q; unfold ed; rw [c2]; simp [hD']
+
+/-- the last stage of appendChild / insertBefore: the new child is linked (heap `h1`), now
+    `_child_attached` runs -/
+theorem attach_good {s0 s' : DState} {p c : Id} {h1 : Heap} {r : Except Err Unit} (hG0 : Good s0)
+    (hkp : (s0.heap p).kind = .elem) (hdet : (s0.heap c).parent = none) (hct : c ≠ s0.top)
+    (hno : ¬ AncOrSelf s0.heap c p) (hI1 : Inv h1)
+    (hpar1 : ∀ y, (h1 y).parent = if y = c then some p else (s0.heap y).parent)
+    (hkind1 : ∀ y, (h1 y).kind = (s0.heap y).kind) (hqn1 : ∀ y, (h1 y).qn = (s0.heap y).qn)
+    (hrun : (childAttached p c).run { s0 with heap := h1 } = (s', r)) (hr : r ≠ .error .RecursionError) :
+    Good s' := by
+  obtain ⟨_, hA0, hC0⟩ := hG0
+  have hA1 : Acyclic h1 := acyclic_attach hA0 hpar1 hno
+  rcases childAttached_view hrun with hrec | ⟨_, l, hl, hs, ht, v1, v2⟩
+  · exact absurd hrec hr
+  · have hs' : SameLinks h1 s'.heap := hs
+    have hI' : Inv s'.heap := inv_sameLinks hI1 hs'
+    have hA' : Acyclic s'.heap := acyclic_sameLinks hA1 hs'
+    refine ⟨hI', hA', ?_⟩
+    have hl' : elemsUnder s'.heap c = some l := by rw [elemsUnder_sameLinks hs']; exact hl
+    apply coh_attach (l := l) hC0 hI' hA' hkp hdet hct ht
+    · intro y; rw [(hs' y).2.1]; exact hpar1 y
+    · intro y; rw [(hs' y).2.2.2.2.1]; exact hkind1 y
+    · intro y; rw [(hs' y).2.2.2.2.2]; exact hqn1 y
+    · intro x; exact elems_spec hI' hl' x
+    · exact elems_nodup hI' hA' FUEL c l hl'
+    · intro q
+      have := v1 q
+      simp only [hkind1, hqn1] at this
+      exact this
+    · exact v2
+
+/-! ### appendChild, insertBefore -/
+
+theorem app_qn (h : Heap) (p c q : Id) : (setNext (appRawHeap h p c) c none q).qn = (h q).qn := by
+  unfold appRawHeap; cases (h p).kids.getLast? <;> simp
+
+theorem insHeap_kind (h : Heap) (p n r x : Id) : (insHeap h p n r x).kind = (h x).kind := by
+  unfold insHeap linkPrevHeap
+  simp only
+  split
+  · simp
+  · split <;> simp
+
+theorem insHeap_qn (h : Heap) (p n r x : Id) : (insHeap h p n r x).qn = (h x).qn := by
+  unfold insHeap linkPrevHeap
+  simp only
+  split
+  · simp
+  · split <;> simp
+
+theorem detach_good {c : Id} {s s' : DState} {r : Except Err Unit} (hG : Good s)
+    (hrun : (DomDoc.detachIfAttached c).run s = (s', r)) (hr : r ≠ .error .RecursionError) :
+    Good s' ∧ s'.top = s.top ∧ (r = .ok () → s'.heap = detach s.heap c) ∧ (r ≠ .ok () → s' = s) := by
+  unfold DomDoc.detachIfAttached at hrun
+  simp only [DomDoc.run_bind_rd] at hrun
+  cases hp : (s.heap c).parent with
+  | none =>
+    rw [hp] at hrun
+    cases hrun
+    exact ⟨hG, rfl, fun _ => (detach_of_detached _ _ hp).symm, fun h => absurd rfl h⟩
+  | some q =>
+    rw [hp] at hrun
+    have hG' := removeChild_good hG hrun hr
+    rcases removeChild_view hrun hG.2.2.nodup with ⟨e, hnf⟩ | hrec | ⟨hok, _, l, _, hh, ht, _⟩
+    · subst e; exact ⟨hG, rfl, fun h => by rw [hnf] at h; cases h, fun _ => rfl⟩
+    · exact absurd hrec hr
+    · refine ⟨hG', ht, fun _ => ?_, fun h => absurd hok h⟩
+      rw [hh]; unfold detach; rw [hp]
+
+/-- **C09 (appendChild)**: appending a node — new, or moved from anywhere with its whole subtree,
+    under an attached or a detached parent — keeps index and ownerDocument in step with the tree. -/
+theorem appendChild_good {p c : Id} {s s' : DState} {r : Except Err Unit} (hG : Good s)
+    (hno : ¬ AncOrSelf s.heap c p) (hct : c ≠ s.top)
+    (hrun : (DomDoc.appendChild p c).run s = (s', r)) (hr : r ≠ .error .RecursionError) : Good s' := by
+  unfold DomDoc.appendChild at hrun
+  simp only [DomDoc.run_bind_rd] at hrun
+  by_cases hk : (s.heap p).kind = .elem
+  · simp only [hk, ne_eq, not_true, if_false, DomDoc.run_bind_pure] at hrun
+    rw [DomDoc.run_bind] at hrun
+    rcases hd : (DomDoc.detachIfAttached c).run s with ⟨s0, r0⟩
+    rw [hd] at hrun
+    cases r0 with
+    | error e =>
+      simp only at hrun; cases hrun
+      exact (detach_good hG hd hr).1
+    | ok u =>
+      obtain ⟨hG0, ht0, hh0, _⟩ := detach_good hG hd (by intro h; cases h)
+      have hh := hh0 rfl
+      simp only at hrun
+      rw [run_bind_liftH, appendRaw_run] at hrun
+      simp only at hrun
+      rw [run_bind_liftH, Dom.run_upd] at hrun
+      simp only at hrun
+      have hkp0 : (s0.heap p).kind = .elem := by rw [hh, detach_kind]; exact hk
+      have hdet : (s0.heap c).parent = none := by rw [hh]; exact detach_parent_self _ _
+      have hno0 : ¬ AncOrSelf s0.heap c p := fun ha => hno (AncOrSelf.mono (fun y q hy => by
+        rw [hh, detach_parent] at hy; split at hy
+        · cases hy
+        · exact hy) ha)
+      exact attach_good hG0 hkp0 hdet (by rw [ht0]; exact hct) hno0 (app_inv hG0.1 hkp0 hdet)
+        (fun y => app_parent _ _ _ _) (fun y => app_kind _ _ _ _) (fun y => app_qn _ _ _ _) hrun hr
+  · simp [hk] at hrun
+    rw [← hrun.1]; exact hG
+
+/-- **C09 (insertBefore)** -/
+theorem insertBefore_good {p n : Id} {ref : Option Id} {s s' : DState} {r : Except Err Unit} (hG : Good s)
+    (hno : ¬ AncOrSelf s.heap n p) (hct : n ≠ s.top)
+    (hrun : (DomDoc.insertBefore p n ref).run s = (s', r)) (hr : r ≠ .error .RecursionError) : Good s' := by
+  unfold DomDoc.insertBefore at hrun
+  simp only [DomDoc.run_bind_rd] at hrun
+  by_cases hk : (s.heap p).kind = .elem
+  · simp only [hk, ne_eq, not_true, if_false, DomDoc.run_bind_pure] at hrun
+    rw [run_bind_liftH, checkRef_run] at hrun
+    by_cases hro : RefOk s.heap p ref
+    · simp only [hro, if_true] at hrun
+      by_cases hrn : ref = some n
+      · simp only [hrn, if_true, DomDoc.run_pure] at hrun
+        cases hrun; exact hG
+      · simp only [hrn, if_false] at hrun
+        rw [DomDoc.run_bind] at hrun
+        rcases hd : (DomDoc.detachIfAttached n).run s with ⟨s0, r0⟩
+        have hd' : (DomDoc.detachIfAttached n).run { s with heap := s.heap } = (s0, r0) := hd
+        rw [hd'] at hrun
+        cases r0 with
+        | error e =>
+          simp only at hrun; cases hrun
+          exact (detach_good hG hd hr).1
+        | ok u =>
+          obtain ⟨hG0, ht0, hh0, _⟩ := detach_good hG hd (by intro h; cases h)
+          have hh := hh0 rfl
+          simp only at hrun
+          have hkp0 : (s0.heap p).kind = .elem := by rw [hh, detach_kind]; exact hk
+          have hdet : (s0.heap n).parent = none := by rw [hh]; exact detach_parent_self _ _
+          have hno0 : ¬ AncOrSelf s0.heap n p := fun ha => hno (AncOrSelf.mono (fun y q hy => by
+            rw [hh, detach_parent] at hy; split at hy
+            · cases hy
+            · exact hy) ha)
+          cases ref with
+          | none => exact appendChild_good hG0 hno0 (by rw [ht0]; exact hct) hrun hr
+          | some rf =>
+            simp only at hrun
+            rw [run_bind_liftH, insertAtRef_run] at hrun
+            by_cases hrf : rf ∈ (s0.heap p).kids
+            · simp only [hrf, if_true] at hrun
+              exact attach_good hG0 hkp0 hdet (by rw [ht0]; exact hct) hno0
+                (ins_inv hG0.1 hkp0 hrf hdet)
+                (fun y => insHeap_parent _ _ _ _ _) (fun y => insHeap_kind _ _ _ _ _)
+                (fun y => insHeap_qn _ _ _ _ _) hrun hr
+            · simp only [hrf, if_false] at hrun
+              cases hrun; exact hG0
+    · simp only [hro, if_false] at hrun
+      cases hrun; exact hG
+  · simp [hk] at hrun
+    rw [← hrun.1]; exact hG
+
 end OdfModel.Props.C09
